@@ -883,6 +883,187 @@ def rule_r9(prog, res):
     res.floor('R9', 'stores of in_object/in_header', n, 15)
 
 
+NUMBER_TYPE_NAMES = {'int', 'long', 'float', 'decimal.Decimal',
+                     'spyne.util.six.integer_types', 'six.integer_types',
+                     'numbers.Number', 'numbers.Real', 'numbers.Integral',
+                     'numbers.Rational'}
+
+
+def _type_names(mod, e, depth=0):
+    """The set of type names a class-or-tuple expression denotes, resolved
+    through module constants and import aliases; None when not resolvable."""
+    if depth > 6:
+        return None
+    if isinstance(e, (ast.Tuple, ast.List, ast.Set)):
+        out = set()
+        for x in e.elts:
+            r = _type_names(mod, x, depth + 1)
+            if r is None:
+                return None
+            out |= r
+        return out
+    if isinstance(e, ast.BinOp) and isinstance(e.op, ast.Add):
+        a = _type_names(mod, e.left, depth + 1)
+        b = _type_names(mod, e.right, depth + 1)
+        return None if a is None or b is None else a | b
+    if isinstance(e, ast.Call) and call_name(e) in ('tuple', 'frozenset',
+                                                    'set') and len(
+            e.args) == 1:
+        return _type_names(mod, e.args[0], depth + 1)
+    if isinstance(e, ast.Name):
+        if e.id in mod.consts:
+            return _type_names(mod, mod.consts[e.id], depth + 1)
+        tgt = mod.imports.get(e.id)
+        if isinstance(tgt, str):
+            return {tgt}
+        return {e.id}
+    if isinstance(e, ast.Attribute):
+        d = dotted(e)
+        if d is None:
+            return None
+        head, _, rest = d.partition('.')
+        tgt = mod.imports.get(head)
+        if isinstance(tgt, str):
+            return {tgt + '.' + rest}
+        return {d}
+    return None
+
+
+def _number_handlers(prog):
+    """[(class, key, function)] the functions that read Double and Integer
+    members of the dict documents, followed through self.<method>(cls, value)
+    delegation."""
+    out = []
+    seen = set()
+    for cfq in ('spyne.protocol.json:JsonDocument',
+                'spyne.protocol.yaml:YamlDocument',
+                'spyne.protocol.msgpack:MessagePackDocument'):
+        c = prog.cls(cfq)
+        tabs = tables_of(prog, c)
+        for tname in ('_from_unicode_handlers', '_from_bytes_handlers'):
+            for key in ('Double', 'Integer'):
+                e = tabs.get(tname, {}).get(key)
+                if e is None or not isinstance(e.target, FuncInfo):
+                    continue
+                todo = [e.target]
+                while todo:
+                    t = todo.pop()
+                    if (c.name, key, t.qualname) in seen:
+                        continue
+                    seen.add((c.name, key, t.qualname))
+                    out.append((c, key, t))
+                    for call in calls_in(t.node):
+                        fn = call.func
+                        if isinstance(fn, ast.Attribute) and unparse(
+                                fn.value) == 'self' and fn.attr in c.methods \
+                                and c.methods[fn.attr] is not t:
+                            todo.append(c.methods[fn.attr])
+    return out
+
+
+def rule_r10(prog, res):
+    res.rule('R10', 'number members of the dict documents admit numbers only '
+             '(a white list, not a black list); an Integer member never keeps '
+             'a float; an AnyDict member only keeps a dict or None')
+    from ..flow import entails
+    n = nint = 0
+    for c, key, t in _number_handlers(prog):
+        ps = t.params()
+        if len(ps) < 3:
+            continue
+        vparam = ps[2]
+        for r in returns_param_unchanged(t, vparam):
+            n += 1
+            where = '%s:%d' % (t.module.relpath, r.lineno)
+            g = flatten_guards(guards_at(r, stop=t.node))
+            white = None
+            leaves = set()
+            for ex, _pol in g:
+                for x in ast.walk(ex):
+                    if isinstance(x, ast.Call) and call_name(x) == \
+                            'isinstance' and len(x.args) == 2 and unparse(
+                            x.args[0]) == vparam:
+                        leaves.add(unparse(x))
+            for txt in sorted(leaves):
+                if not entails(g, txt):
+                    continue
+                call = ast.parse(txt, mode='eval').body
+                names = _type_names(t.module, call.args[1])
+                if names is not None and names <= NUMBER_TYPE_NAMES:
+                    white = (txt, sorted(names))
+                elif white is None:
+                    white = (txt, None if names is None else sorted(
+                        names - NUMBER_TYPE_NAMES))
+            ok = white is not None and white[1] is not None and set(
+                white[1]) <= NUMBER_TYPE_NAMES
+            res.ob('R10', where, '%s[%s] -> %s returns the value unchanged '
+                   'under %s' % (c.name, key, t.qualname, white),
+                   'ok' if ok else 'VIOLATED')
+            if not ok:
+                res.finding('R10', '%s|%s|not-a-white-list' % (
+                    t.qualname, key), where, '%s hands the document value '
+                    'to a %s member unchanged without a dominating '
+                    'isinstance test against number types only (%s): a '
+                    'date, set, tuple or extension value reaches the member '
+                    'and the range check raises a TypeError instead of a '
+                    'client fault' % (t.qualname, key, white))
+                continue
+            if key != 'Integer':
+                continue
+            nint += 1
+            # the unchanged return of an Integer member excludes floats
+            fl = 'isinstance(%s, float)' % vparam
+            okf = entails(g, 'not (%s and issubclass(%s, Integer))' % (
+                fl, ps[1])) or entails(g, 'not %s' % fl) or (
+                    'float' not in white[1])
+            res.ob('R10', where, '%s[Integer] -> %s: the unchanged value is '
+                   'not a float' % (c.name, t.qualname),
+                   'ok' if okf else 'VIOLATED')
+            if not okf:
+                res.finding('R10', '%s|Integer|float-kept' % t.qualname,
+                            where, '%s returns a float unchanged for an '
+                            'Integer member: user code receives 3.0 where '
+                            'int is declared' % t.qualname)
+    res.floor('R10', 'unchanged returns of number handlers', n, 3)
+    res.floor('R10', 'unchanged returns reached for Integer members', nint, 3)
+
+    h = prog.cls('spyne.protocol.dictdoc.hier:HierDictDocument')
+    f = h.methods.get('_from_dict_value')
+    if f is None:
+        raise AnalysisError('HierDictDocument._from_dict_value', 'not found')
+    ps = f.params()
+    m = 0
+    for st in walk_no_defs(f.node):
+        if not (isinstance(st, ast.Assign) and isinstance(st.value, ast.Name)
+                and st.value.id in ps and len(st.targets) == 1 and
+                isinstance(st.targets[0], ast.Name) and
+                st.targets[0].id == 'retval'):
+            continue
+        g = flatten_guards(guards_at(st, stop=f.node))
+        v = st.value.id
+        mentions = [unparse(ex) for ex, pol in g if 'AnyDict' in unparse(ex)]
+        if not mentions:
+            continue
+        # can the store run for an AnyDict class?
+        if entails(g, 'not issubclass(cls, AnyDict)'):
+            continue
+        m += 1
+        where = '%s:%d' % (f.module.relpath, st.lineno)
+        ok = entails(g, '%s is None or isinstance(%s, dict)' % (v, v))
+        res.ob('R10', where, '_from_dict_value keeps the document value for '
+               'an AnyDict member under %s' % [
+                   ('' if pol else 'not ') + unparse(ex) for ex, pol in g],
+               'ok' if ok else 'VIOLATED')
+        if not ok:
+            res.finding('R10', '_from_dict_value|AnyDict|kind', where,
+                        'HierDictDocument._from_dict_value stores the '
+                        'document value for an AnyDict member without a '
+                        'dominating test that it is a dict (or None): a '
+                        'number, string or list is delivered where a dict '
+                        'is declared')
+    res.floor('R10', 'AnyDict pass-through stores', m, 1)
+
+
 def run(prog, res, tier):
     guard_helpers(prog)
     res.run_rule(rule_r1, prog, res)
@@ -894,6 +1075,7 @@ def run(prog, res, tier):
     res.run_rule(rule_r7, prog, res)
     res.run_rule(rule_r8, prog, res)
     res.run_rule(rule_r9, prog, res)
+    res.run_rule(rule_r10, prog, res)
 
 
 _X = 'spyne/protocol/xml.py'
@@ -1046,9 +1228,48 @@ MUTANTS = [
            'identity'),
     Mutant('number-kind-test-dropped', 'R2', 'fire', _Y,
            in_func('YamlDocument._ret_number',
-                   "        if isinstance(value, NON_NUMBER_TYPES):\n"
+                   "        if not isinstance(value, NUMBER_TYPES):\n"
                    "            raise ValidationError(value)\n", ""),
            '_ret_number'),
+    Mutant('number-black-list', 'R10', 'fire', _Y,
+           in_func('YamlDocument._ret_number',
+                   "        if not isinstance(value, NUMBER_TYPES):\n",
+                   "        if isinstance(value, (list, dict, six.text_type, "
+                   "six.binary_type)):\n"),
+           'not-a-white-list'),
+    Mutant('number-white-list-widened', 'R10', 'fire',
+           'spyne/protocol/msgpack.py',
+           in_func(None, "NUMBER_TYPES = six.integer_types + (float, D)",
+                   "NUMBER_TYPES = six.integer_types + (float, D, tuple)"),
+           'not-a-white-list'),
+    Mutant('integer-keeps-float', 'R10', 'fire', _J,
+           in_func('JsonDocument._ret_number',
+                   "        if isinstance(value, float) and issubclass(cls, "
+                   "Integer):\n",
+                   "        if isinstance(value, float) and issubclass(cls, "
+                   "Integer) and not value.is_integer():\n"),
+           'float-kept'),
+    Mutant('number-white-list-inline', 'R10', 'benign', _J,
+           in_func('JsonDocument._ret_number',
+                   "        if not isinstance(value, NUMBER_TYPES):\n"
+                   "            raise ValidationError(value)\n",
+                   "        if isinstance(value, six.integer_types + (float, "
+                   "D)):\n            pass\n        else:\n"
+                   "            raise ValidationError(value)\n"), None),
+    Mutant('anydict-kind-dropped', 'R10', 'fire', _H,
+           in_func('HierDictDocument._from_dict_value',
+                   "                if not (inst is None or isinstance(inst, "
+                   "dict)):\n                    raise ValidationError([key, "
+                   "inst])\n", ""), 'AnyDict'),
+    Mutant('anydict-merged-with-any', 'R10', 'fire', _H,
+           in_func('HierDictDocument._from_dict_value',
+                   "            if issubclass(cls, AnyDict):\n"
+                   "                if not (inst is None or isinstance(inst, "
+                   "dict)):\n                    raise ValidationError([key, "
+                   "inst])\n                retval = inst\n\n"
+                   "            elif issubclass(cls, Any):\n",
+                   "            if issubclass(cls, (Any, AnyDict)):\n"),
+           'AnyDict'),
     Mutant('bool-equality-test', 'R2', 'fire', _J,
            in_func('JsonDocument._ret_bool',
                    "if value is None or isinstance(value, bool):",
